@@ -337,6 +337,9 @@ func genBaseSpec(rng *rand.Rand, allowDefault bool) SubSpec {
 			if rng.Intn(100) == 0 {
 				s.Cfg[i] = 257 + rng.Intn(40) // longer than a trading year and than any default (255)
 			}
+			if rng.Intn(15) == 0 {
+				s.Cfg[i] = 1 // the shortest window there is
+			}
 		}
 	case x < 85 || !allowDefault:
 		s.Scale = []int{2, 3, 4, 6, 8}[rng.Intn(5)]
@@ -368,6 +371,9 @@ func genStratSpec(rng *rand.Rand, depth int, allowDefault bool) SubSpec {
 	switch name {
 	case "strategy.And", "strategy.Or", "strategy.Majority":
 		n = 1 + rng.Intn(4)
+		if rng.Intn(25) == 0 {
+			n = 9 + rng.Intn(12) // a committee: more members than any fixed pool of workers or slots
+		}
 	case "strategy.Split":
 		n = 2
 	case "registry.And", "registry.Split":
@@ -393,7 +399,7 @@ func genStratSpec(rng *rand.Rand, depth int, allowDefault bool) SubSpec {
 		return s
 	}
 	for i := 0; i < n; i++ {
-		if depth+1 < maxNest() && rng.Intn(4) == 0 {
+		if depth+1 < maxNest() && n < 9 && rng.Intn(4) == 0 {
 			s.Subs = append(s.Subs, genStratSpec(rng, depth+1, allowDefault))
 		} else {
 			s.Subs = append(s.Subs, genBaseSpec(rng, allowDefault))
